@@ -168,6 +168,13 @@ Theorem C11_gc_with_zero_window_refuted : ~ gc_with_zero_window_statement (fun h
 Proof. exact gc_with_zero_window_refuted. Qed.
 Print Assumptions C11_gc_with_zero_window_refuted.
 
+(* a positive window length that is merely not above the one of the persisted chain is not enough either: the length
+   read at the current height after a not yet persisted lowering (1 instead of 3, 5 persisted blocks) lets the collector
+   remove a node of a state the persisted chain still promises (finding F61) *)
+Theorem C11_gc_with_lowered_window_refuted : ~ gc_with_lowered_window_statement (fun h => h).
+Proof. exact gc_with_lowered_window_refuted. Qed.
+Print Assumptions C11_gc_with_lowered_window_refuted.
+
 (* ================= the interface hypothesis discharged against the concrete trie of C10 =================
    TrieRC/Concrete.v: [put_trace], [delete_trace], [put_batch_trace] list the addRef/removeRef calls of Trie.Put,
    Trie.Delete and Trie.PutBatch with the placements of trie.go / batch.go, over the model of coq/Trie/Model.v and an
